@@ -22,9 +22,16 @@ always hand the original result / exception through):
 The workload driver adds repetition on the client side (same call again, after interleaved
 other calls, after ``Cache.clear_cache()``, on a freshly built identical dataset).
 """
+import atexit
 import collections
 import hashlib
 import inspect
+import os
+import pathlib
+import shutil
+import subprocess
+import sysconfig
+import tempfile
 
 import numpy as np
 
@@ -116,7 +123,54 @@ def plan(tier, seed):
                      max_len=e["grid_len"])
     if ALIAS_ADJUNCT:
         shards += _split("alias", 40 if q else 400, 1)
+    if not q and os.environ.get("VERIF_C16_SANITIZER", "1") != "0":
+        env = _build_sanitized_overlay()
+        if env:
+            shards += _split("asan", 40000, 4, env=env)
     return shards
+
+
+# ------------------------------------------------- sanitizer adjunct (DESIGN.md 2.8)
+ASAN_RT = "/usr/lib/llvm-14/lib/clang/14.0.6/lib/linux/libclang_rt.asan-x86_64.so"
+_ADJ = {"dir": None, "note": None}
+
+
+def _build_sanitized_overlay():
+    """Copy of the dclab package (copies, not symlinks: boot verifies the resolved import
+    location) whose downsampling extension is an ASan+UBSan build of the shipped .c file.
+    The behavioural monitors are off in these shards; a sanitizer report aborts the shard
+    process, which the runner reports as inconclusive with the report in the log tail."""
+    repo = pathlib.Path(os.environ.get("VERIF_REPO", "/repo")).resolve()
+    csrc = repo / "dclab" / "downsampling.c"
+    if not csrc.exists() or not os.path.exists(ASAN_RT) or shutil.which("clang") is None:
+        _ADJ["note"] = "not run: downsampling.c, clang or the ASan runtime is missing"
+        return None
+    dest = pathlib.Path(tempfile.mkdtemp(prefix="vmon-c16-asan-", dir="/dev/shm"))
+    _ADJ["dir"] = str(dest)
+    atexit.register(shutil.rmtree, str(dest), ignore_errors=True)
+    shutil.copytree(repo / "dclab", dest / "dclab",
+                    ignore=shutil.ignore_patterns("__pycache__", "downsampling.*.so"))
+    shutil.copy(repo / "CHANGELOG", dest / "CHANGELOG")
+    so = dest / "dclab" / ("downsampling" + sysconfig.get_config_var("EXT_SUFFIX"))
+    cmd = ["clang", "-shared", "-fPIC", "-O1", "-g", "-fno-omit-frame-pointer", "-w",
+           "-fsanitize=address,undefined", "-fno-sanitize-recover=undefined", "-fwrapv",
+           "-I" + np.get_include(), "-I" + sysconfig.get_paths()["include"],
+           str(csrc), "-o", str(so)]
+    cp = subprocess.run(cmd, capture_output=True, text=True)
+    if cp.returncode != 0:
+        _ADJ["note"] = "not run: sanitizer build failed: " + cp.stderr[-200:]
+        shutil.rmtree(dest, ignore_errors=True)
+        return None
+    _ADJ["note"] = "run"
+    return {"LD_PRELOAD": ASAN_RT, "VERIF_REPO": str(dest),
+            "ASAN_OPTIONS": "detect_leaks=0:abort_on_error=0"}
+
+
+def post(merged):
+    if _ADJ["note"]:
+        merged["counters"][f"sanitizer_adjunct[{_ADJ['note']}]"] = 1
+    if _ADJ["dir"]:
+        shutil.rmtree(_ADJ["dir"], ignore_errors=True)
 
 
 # ============================================================================ monitors
@@ -805,7 +859,28 @@ def run_alias(ctx):
         ctx.count(f"alias_pairs[{np.dtype(t1)}->{np.dtype(t2)}]")
 
 
+def run_asan(ctx):
+    """Sanitizer adjunct: the fn workload on the ASan/UBSan build, behavioural monitors off
+    (they decide in the ordinary shards); an evaluation = a call the process survived."""
+    import dclab.downsampling as D
+    so = str(getattr(D, "__file__", ""))
+    where = "overlay" if so.startswith(os.environ.get("VERIF_REPO", "?")) else "NOT-THE-OVERLAY"
+    ctx.count(f"sanitizer_extension_loaded_from[{where}]")
+    if where != "overlay":
+        raise RuntimeError(f"sanitizer shard loaded {so}")
+    for idx in ctx.case_ids():
+        c = _fn_case(ctx, idx)
+        res, exc = _run_fn_call(c)
+        ctx.ev("sanitizer.no_report")
+        ctx.count(f"sanitizer_calls[{c['method']}:{'ok' if exc is None else type(exc).__name__}]")
+        if idx % 4 == 0 and c["method"] == "grid":
+            ctx.mark_nontrivial(["asan", idx])
+
+
 def run(spec, ctx):
+    if spec["kind"] == "asan":
+        _S.ctx = None
+        return run_asan(ctx)
     _S.ctx = ctx
     sites = install()
     for name, s in sites:
